@@ -96,6 +96,8 @@ BLOCK = [
     ("closure-outside-wrapper", ["let sizes = paths.iter().map(|p| std::fs::read(p)).collect::<Vec<_>>();"], [("blocking-async.fs-in-async", 0)]),
     ("fs-feeding-awaited-call", ["client.send(std::fs::read(path).unwrap()).await;"], [("blocking-async.fs-in-async", 0)]),
     ("fs-in-loop", ["for p in paths {", "    let s = std::fs::read(p)?;", "}"], [("blocking-async.fs-in-async", 1)]),
+    ("nested-helper-fn", ["fn helper(p: &str) -> Res {", "    let s = std::fs::read(p)?;", "    done()", "}", "helper(path)?;"], [("blocking-async.fs-in-async", 1)]),
+    ("nested-helper-fn-sleep", ["fn pause(d: Dur) {", "    std::thread::sleep(d);", "}", "pause(delay);"], [("blocking-async.sleep-in-async", 1)]),
     ("plain", ["let n = compute(delay);"], []),
 ]
 LINTERS = {
